@@ -30,6 +30,7 @@ def run(ctx):
     # the implementation-shaped allocator model: explored exhaustively by TLC, refines Emit, replayed into the real converter (lib/allocflow.py)
     import allocflow
     cases += allocflow.run(ctx)
+    allocflow.inductive(ctx)
     wd = ctx.sub("emit")
     p0, p1 = os.path.join(wd, "c0.ndjson"), os.path.join(wd, "c1.ndjson")
     write_ndjson(p0, [{"id": c["id"], "prog": c["prog"]} for c in cases])
